@@ -29,7 +29,7 @@ from props import c02_cse
 
 EXTRACTORS = ["Cse"]
 # further property file of C02: the model of the whole of stage2/cse.py preserves the solution set
-EXTRA_PROPS = ["C02Cse"]
+EXTRA_PROPS = ["C02Cse", "C02Cse2", "C02Unexpanded"]   # C02Unexpanded: the UnexpandedEllipsis branch of stage2.solve modelled and characterised
 ANON = ".anonymous_ellipsis_axis"
 
 
@@ -825,6 +825,10 @@ FIXED = [
     ("matches", "((a + b) c d), ((a + b) c e)", [[4], [2]], {}),
     ("matches", "((a + 2) (b + 3)), ((a + 2) (b + 3))", [[13], [13]], {}),
     ("solve_shapes", "a (b c), (b c) d", [[2, 6], None], {"d": 5}),
+    # defects of stage2/cse.py found while proving cseTrees_preserves_sols (docs/wp/cse.md, docs/wp/cse2.md): D20, D21
+    ("sum", "a ([c d]) [c d]", [[4, 6, 2, 3]], {}),
+    ("matches", "(a 1 d), (1 d) c, (a 1)", [[12], [2, 2], [4]], {}),
+    ("solve_shapes", "(a 1 d), (1 d) c", [[6], [3, 2]], {}),
 ]
 
 
@@ -1112,6 +1116,39 @@ def run(ctx):
         handle({"api": api, "desc": desc, "shapes": [None if s is None else list(s) for s in shapes], "params": dict(params)}, do_shrink=False)
     for case in directed:
         handle(case)
+    # D19: a user axis named like CSE's fresh axes (`cse...` expands to `cse.0`, `cse.1`) -- the same description with another
+    # axis name is the reference
+    try:
+        import einx
+        ref = einx.solve_shapes("(a b) c..., (a b)", np.zeros((6, 2, 3)), np.zeros((6,)))
+        try:
+            got = einx.solve_shapes("(a b) cse..., (a b)", np.zeros((6, 2, 3)), np.zeros((6,)))
+            bad = None if tuple(map(tuple, got)) == tuple(map(tuple, ref)) else f"returns {got} instead of {ref}"
+        except Exception as e:
+            bad = f"raises {type(e).__name__} although the same call with the axis named `c...` returns {ref}"
+        ctx.count("d19-probe")
+        if bad is not None:
+            ctx.violation('iii-must-succeed:solve_shapes("(a b) cse..., (a b)"; (6,2,3),(6); ) [axis name collides with the fresh axes of stage2/cse.py]',
+                          {"kind": "iii-must-succeed", "api": "solve_shapes", "description": "(a b) cse..., (a b)", "shapes": [[6, 2, 3], [6]], "params": {}, "detail": bad})
+    except Exception as e:   # the reference call itself fails: nothing to compare
+        ctx.count("d19-probe-unavailable:" + type(e).__name__)
+    # An ellipsis and its written-out repetition have the same solutions and the same tensor shapes (Props/C07Stage2.lean:
+    # ellipsis_unroll), so the solver must treat them alike: same outcome (success / failure) and same reported shapes.
+    for short, long_, shapes in [("(a b)...", "(a0 b0) (a1 b1)", [[6, 4]]), ("(a b)... c", "(a0 b0) (a1 b1) c", [[6, 4, 3]]),
+                                 ("c (a + b)...", "c (a0 + b0) (a1 + b1)", [[3, 6, 4]]), ("(a b c)...", "(a0 b0 c0) (a1 b1 c1)", [[8, 12]]),
+                                 ("((a b)... c)", "((a0 b0) (a1 b1) c)", [[48]])]:
+        for api in ("matches", "solve_shapes"):
+            rs = call_real({"api": api, "desc": short, "shapes": shapes, "params": {}})
+            rl = call_real({"api": api, "desc": long_, "shapes": shapes, "params": {}})
+            ctx.count("unroll-outcome-pairs")
+            ok_s = rs.get("status") == "ok" and (api != "matches" or rs["reported"]["matches"])
+            ok_l = rl.get("status") == "ok" and (api != "matches" or rl["reported"]["matches"])
+            if rs.get("captured") is False or rl.get("captured") is False:
+                continue
+            if ok_s != ok_l or (ok_s and api == "solve_shapes" and rs["reported"].get("shapes") != rl["reported"].get("shapes")):
+                ctx.violation(f'unroll-outcome-differs:{api}("{short}" vs "{long_}"; {",".join("(" + ",".join(map(str, sh)) + ")" for sh in shapes)}; )',
+                              {"kind": "an ellipsis and its written-out repetition are solved differently", "api": api, "short": short, "long": long_, "shapes": shapes,
+                               "short_outcome": {k: rs.get(k) for k in ("status", "exc", "reported")}, "long_outcome": {k: rl.get(k) for k in ("status", "exc", "reported")}})
     for case in directed_structural():
         ctx.count("directed-structural-cases")
         handle(case)
